@@ -212,19 +212,27 @@ func (f *decoFIP) List(ctx context.Context, opts metav1.ListOptions) (res *v1alp
 	return
 }
 
-// ---- fake informer: captures the event handler NewCrdIPAM registers ---------------------------------------------------
+// ---- lagging informer: what galaxy-ipam's shared FloatingIP informer looks like to crdIpam --------------------------------
+//
+// NewCrdIPAM gets it the way the daemon passes the real one: it registers its event handlers on Informer() and may use
+// Lister().  The cache behind the lister shows the store AS OF THE LAST explicit sync (World.InformerSync, or the
+// delivery of a single event for that object): it lags galaxy-ipam's own writes exactly like the real informer does.
 
-type capInformer struct {
-	cache.SharedIndexInformer // nil: only AddEventHandler is ever called by NewCrdIPAM
+type lagInformer struct {
+	cache.SharedIndexInformer // nil: only the methods below are ever called
 	h                         cache.ResourceEventHandler
+	idx                       cache.Indexer
 }
 
-func (c *capInformer) AddEventHandler(h cache.ResourceEventHandler) { c.h = h }
+func (c *lagInformer) AddEventHandler(h cache.ResourceEventHandler) { c.h = h }
+func (c *lagInformer) HasSynced() bool                              { return true }
+func (c *lagInformer) GetIndexer() cache.Indexer                    { return c.idx }
+func (c *lagInformer) GetStore() cache.Store                        { return c.idx }
 
-type capFIPInformer struct{ inf *capInformer }
+type lagFIPInformer struct{ inf *lagInformer }
 
-func (c *capFIPInformer) Informer() cache.SharedIndexInformer { return c.inf }
-func (c *capFIPInformer) Lister() listers.FloatingIPLister    { return nil }
+func (c *lagFIPInformer) Informer() cache.SharedIndexInformer { return c.inf }
+func (c *lagFIPInformer) Lister() listers.FloatingIPLister    { return listers.NewFloatingIPLister(c.inf.idx) }
 
 // ---- addresses -----------------------------------------------------------------------------------------------------
 
@@ -382,6 +390,7 @@ type World struct {
 	Deco    *Deco
 	Ipam    floatingip.IPAM
 	handler cache.ResourceEventHandler
+	inf     *lagInformer
 	Conf    Conf       // current configuration (what a restart reloads)
 	Pools   []PoolInfo // decoded current configuration, sorted by gateway (stable)
 	Pending []Event
@@ -396,9 +405,45 @@ func NewWorld(objs ...runtime.Object) *World {
 
 func (w *World) boot() {
 	w.Deco = NewDeco(w.Store)
-	inf := &capInformer{}
-	w.Ipam = floatingip.NewCrdIPAM(w.Deco, &capFIPInformer{inf})
-	w.handler = inf.h
+	w.inf = &lagInformer{idx: cache.NewIndexer(cache.MetaNamespaceKeyFunc, cache.Indexers{})}
+	w.refreshInformerCache() // a starting process waits for the informer's initial sync
+	w.Ipam = floatingip.NewCrdIPAM(w.Deco, &lagFIPInformer{w.inf})
+	w.handler = w.inf.h
+}
+
+// refreshInformerCache makes the informer's cache equal to the store.
+func (w *World) refreshInformerCache() {
+	var objs []interface{}
+	for _, o := range w.StoreObjs() {
+		objs = append(objs, o.DeepCopy())
+	}
+	w.inf.idx.Replace(objs, "")
+}
+
+// InformerSync: the informer catches up — its cache shows the store, every pending watch event is handed to the
+// handlers.  Returns the number of events delivered.
+func (w *World) InformerSync() int {
+	w.refreshInformerCache()
+	n := len(w.Pending)
+	for len(w.Pending) > 0 {
+		w.deliverOne()
+	}
+	return n
+}
+
+// deliverOne hands the oldest pending event to crdIpam's handler; the informer's cache entry of that object is what the
+// event says (an informer updates its cache before it calls the handlers).
+func (w *World) deliverOne() {
+	e := w.Pending[0]
+	w.Pending = w.Pending[1:]
+	o := objFor(e.IP, e.Key, e.Policy, true)
+	if e.Assign {
+		w.inf.idx.Add(o.DeepCopy())
+		w.handler.OnAdd(o)
+	} else {
+		w.inf.idx.Delete(o)
+		w.handler.OnDelete(o)
+	}
 }
 
 func sortedInfo(ps []PoolInfo) []PoolInfo {
